@@ -11,19 +11,19 @@ TABLE = {
          [('C01_frame_step_never_faults', 'safe_step'), ('C01_frame_never_faults', 'safe_frame'), ('C01_history_never_faults', 'safe_history'),
           ('C01_classifier_stays_inside', 'classify_total'), ('C01_esp32_reads_inside_length', 'esp32_total'), ('C01_tick_total', 'tick_total'),
           ('C01_every_entry_point_every_history', 'rx_history_safe'), ('C01_hypotheses_satisfiable', 'rx_history_applies')]),
- 'C02': ('BlockFun BlockNominal SpecTx TxProofs', 'C02: every transmitted frame passes the independent validator wf_tx; solicited only; junk independent; link to the buffer-level model',
+ 'C02': ('BlockFun BlockNominal SystemRefinement SpecTx TxProofs', 'C02: every transmitted frame passes the independent validator wf_tx; solicited only; junk independent; link to the buffer-level model',
          [('C02_every_frame_well_formed', 'C02_wf_step'), ('C02_only_solicited_and_bounded', 'C02_solicited'), ('C02_hello_property_list_well_formed', 'wf_hello'),
-          ('C02_no_uninitialised_byte', 'junk_independent'), ('C02_buffer_level_model_refines', 'step_nominal')]),
- 'C03': ('BlockFun BlockNominal PropsMapper', 'C03: an accepted Discover is answered by exactly one correct Hello',
+          ('C02_no_uninitialised_byte', 'junk_independent'), ('C02_buffer_level_model_refines', 'step_nominal'), ('C02_registry_level_refines', 'frame_nominal')]),
+ 'C03': ('BlockFun BlockNominal PropsMapper SystemRefinement', 'C03: an accepted Discover is answered by exactly one correct Hello',
          [('C03_accepted_discover_one_hello', 'C03_one_hello'), ('C03_hello_fields', 'C03_hello_shape'), ('C03_generation_of_that_discover', 'C03_generation_recorded'),
-          ('C03_refused_discover_silence', 'C03_rejected'), ('C03_hellos_heard_change_nothing', 'C03_hello_heard'), ('C03_buffer_level_model_refines', 'step_nominal')]),
+          ('C03_refused_discover_silence', 'C03_rejected'), ('C03_hellos_heard_change_nothing', 'C03_hello_heard'), ('C03_buffer_level_model_refines', 'step_nominal'), ('C03_on_the_buffer_level_model', 'C03_buffer_level')]),
  'C04': ('BlockFun SpecTx TxProofs', 'C04: decoding a Hello yields the attributes the platform supplied; Linux getters',
          [('C04_hello_decodes_to_attributes', 'C04_roundtrip'), ('C04_wireless_only_on_wireless', 'C04_wireless_gate'), ('C04_property_list_parses', 'parse_props_hello'),
           ('C04_be32_roundtrip', 'be32_roundtrip'), ('C04_signed_roundtrip', 's32_roundtrip'), ('C04_linux_platform_layer', 'C04_linux')]),
- 'C05': ('BlockFun PropsMapper', 'C05: one mapper at a time',
+ 'C05': ('BlockFun PropsMapper SystemRefinement', 'C05: one mapper at a time',
          [('C05_discover_answered_iff', 'C05_answered_iff'), ('C05_accepted_becomes_mapper', 'C05_becomes_mapper'), ('C05_mapper_preserved', 'C05_preserved'),
           ('C05_reset_releases', 'C05_reset_releases'), ('C05_foreign_service_inert', 'C05_foreign_service'), ('C05_short_frame_inert', 'C05_unparsable'),
-          ('C05_history', 'C05_history'), ('C05_history_next_discover', 'C05_history_next'), ('C05_after_reset_anyone', 'C05_after_reset_any')]),
+          ('C05_history', 'C05_history'), ('C05_history_next_discover', 'C05_history_next'), ('C05_after_reset_anyone', 'C05_after_reset_any'), ('C05_on_the_buffer_level_model', 'C05_buffer_level')]),
  'C06': ('BlockFun PropsEmit', 'C06: Emit executed descriptor by descriptor, then acknowledged; bounded',
          [('C06_emit_sequence', 'C06_emit'), ('C06_descriptor_slicing', 'read_descs_spec'), ('C06_unknown_kinds', 'C06_emit_any_frames'), ('C06_oversize_count_dropped', 'C06_nofit'), ('C06_transmission_bound', 'C06_bound')]),
  'C07': ('BlockFun PropsQuery', 'C07: every observed probe reported exactly once',
@@ -34,12 +34,12 @@ TABLE = {
          [('C08_response', 'C08_step'), ('C08_chunk_length', 'C08_chunk_length'), ('C08_fits_mtu', 'C08_fits'), ('C08_seq_zero_ignored', 'C08_seq0'), ('C08_unknown_or_past_end', 'C08_past_end'),
           ('C08_wire_decoding', 'decode_qlt_frame'), ('C08_reassembly', 'C08_reassemble'), ('C08_mapper_loop_end_to_end', 'C08_fetch_wire'), ('C08_offsets_fit', 'C08_offsets_16bit'),
           ('C08_icon_cached', 'C08_icon_cached'), ('C08_hardware_id', 'C08_hwid_prefix')]),
- 'C09': ('BlockFun PropsMapper', 'C09: a topology Reset returns the responder to fresh-start behaviour',
-         [('C09_normalisation_step', 'C09_norm_step'), ('C09_reset_gives_fresh', 'C09_reset_fresh'), ('C09_after_reset_like_fresh', 'C09_history'), ('C09_one_run', 'C09_history_run')]),
+ 'C09': ('BlockFun PropsMapper SystemRefinement', 'C09: a topology Reset returns the responder to fresh-start behaviour',
+         [('C09_normalisation_step', 'C09_norm_step'), ('C09_reset_gives_fresh', 'C09_reset_fresh'), ('C09_after_reset_like_fresh', 'C09_history'), ('C09_one_run', 'C09_history_run'), ('C09_on_the_buffer_level_model', 'C09_buffer_level')]),
  'C10': ('BlockFun PropsEmit', 'C10: probes emitted by one responder are observed by a peer responder',
          [('C10_emitted_frame_parses', 'parse_probe_frame'), ('C10_peer_records', 'C10_peer'), ('C10_peer_reports', 'C10_reported'), ('C10_peer_reports_later', 'C10_reported_later')]),
- 'C17': ('BlockFun Isolation RegistryProofs', 'C17: interfaces are isolated (sequential: proved; concurrent registration: refuted = known finding)',
-         [('C17_interleaving_isolated', 'isolation'), ('C17_registry_isolated', 'reg_isolation'), ('C17_registry_sequential_ok', 'registry_sequential_ok'),
+ 'C17': ('BlockFun Isolation SystemRefinement RegistryProofs', 'C17: interfaces are isolated (sequential: proved; concurrent registration: refuted = known finding)',
+         [('C17_interleaving_isolated', 'isolation'), ('C17_registry_isolated', 'reg_isolation'), ('C17_whole_system_refines_pure_histories', 'system_refinement_clock'), ('C17_on_the_buffer_level_model', 'C17_buffer_level'), ('C17_registry_sequential_ok', 'registry_sequential_ok'),
           ('C17_registry_lost_update', 'C17_registry_refuted'), ('C17_registry_losing_interleavings', 'registry_all_interleavings')]),
  'C18': ('BlockFun BlockSafe PropsMapper FaultProofs', 'C18: platform faults degrade gracefully',
          [('C18_no_fault_any_oracle', 'safe_history'), ('C18_step_any_oracle', 'safe_step'), ('C18_reset_restores_fresh_any_oracle', 'reset_any_oracle'), ('C18_then_behaves_like_fresh', 'C09_history'),
